@@ -39,11 +39,12 @@ IsMemOp(i) == i.op \in LoadOps \cup StoreOps
 EndsWithRet(fin) == fin.status = "ret"
 
 (* executed instruction indices (0-based) in order *)
-Path(fin) == fin.pcs
+Path(fin) == [k \in 1 .. Len(fin.ev) |-> fin.ev[k].i]
 
 CaseRec(fam, prog, regs0, img, memSize, fin, focusRegs, focusAddrs, tags, extra) ==
   [ fam |-> fam, prog |-> prog, regs0 |-> IntRegs(regs0), img |-> img, memSize |-> memSize,
     exp |-> [ status |-> fin.status, regs |-> IntRegs(fin.regs), mem |-> fin.mem, n |-> fin.n,
-              cyc1 |-> fin.cyc1, pcs |-> fin.pcs, addrs |-> fin.addrs ],
+              cyc1 |-> fin.cyc1, pcs |-> [k \in 1 .. Len(fin.ev) |-> fin.ev[k].i],
+              addrs |-> [k \in 1 .. Len(fin.ev) |-> fin.ev[k].a] ],
     focusRegs |-> focusRegs, focusAddrs |-> focusAddrs, tags |-> tags, extra |-> extra ]
 =======================================================================
